@@ -59,7 +59,10 @@ void fill_histogram(SrcView const& srcview, std::vector<T>& histogram, bool accu
 
     if (!accumulate)
         histogram.clear();
-    histogram.resize((std::numeric_limits<channel_t>::max)() + 1);
+    // grow only: when accumulating, the bins of an earlier image of greater depth are kept
+    std::size_t const bins = static_cast<std::size_t>((std::numeric_limits<channel_t>::max)()) + 1;
+    if (histogram.size() < bins)
+        histogram.resize(bins);
 
     for_each_pixel(color_converted_view<pixel_t>(srcview), [&](pixel_t const& p) {
         ++histogram[static_cast<std::size_t>(p)];
